@@ -46,6 +46,21 @@ def main():
             rows.append((n, pid, ", ".join(f"{c}: {'CAUGHT' if x['rc'] == 1 else ('missed' if x['rc'] == 0 else 'ERROR')}" for c, x in res.items()), (res[pid]["fingerprints"] or [""])[0][:140]))
         finally:
             shutil.rmtree(tmp, ignore_errors=True)
+    # the table always covers every kept seed: rows of seeds not re-run now come from their meta.json
+    done = {r[0] for r in rows}
+    for n in sorted(d for d in os.listdir(os.path.join(V, "seeded")) if os.path.isdir(os.path.join(V, "seeded", d))):
+        if n in done:
+            continue
+        meta = json.load(open(os.path.join(V, "seeded", n, "meta.json")))
+        res = meta.get("caught_by_quick_checks") or {}
+        def verdict(x):
+            return "CAUGHT" if isinstance(x, dict) and x.get("rc") == 1 else ("missed" if isinstance(x, dict) and x.get("rc") == 0 else str(x)[:20])
+        first = ""
+        x = res.get(meta["breaks_property"])
+        if isinstance(x, dict):
+            first = ((x.get("fingerprints") or x.get("lines") or [""])[0] or "").strip()[:140]
+        rows.append((n, meta["breaks_property"], ", ".join(f"{c}: {verdict(x)}" for c, x in res.items()), first))
+    rows.sort()
     with open(os.path.join(V, "seeded", "RESULTS.md"), "w") as f:
         f.write("# Seeded changes (written by independent sub-agents from the property text only) vs the quick checks\n\n")
         f.write("Each change was confirmed in a fresh worktree: demo passes on the clean tree, fails with the patch, the existing\ntest suite passes with the patch (see meta.json). Checks were run with `--src <scratch copy + patch>`.\n\n")
